@@ -166,6 +166,19 @@ impl<'a> Dfs<'a> {
                 return;
             }
         }
+        // second reference: the recursive-descent parser must agree with Earley
+        if let Ok(toks) = rlex(&src) {
+            let rd = crate::reffront::parse_tokens(&src, &toks);
+            let agrees = match (&rd, &expect) {
+                (Ok(_), Expect::PassesFrontEnd) | (Err(None), Expect::EndOfInput) => true,
+                (Err(Some(i)), Expect::BadToken(j)) => i == j,
+                _ => false,
+            };
+            if !agrees {
+                self.acc.self_check_errors.push(format!("reference self-check: Earley says {expect:?}, the recursive-descent reference says {:?} on {src:?}", rd.map(|_| ())));
+                return;
+            }
+        }
         self.acc.inc("texts given to generate");
         match &expect {
             Expect::PassesFrontEnd => self.acc.inc("sentences"),
@@ -227,7 +240,7 @@ pub fn parser_rs_isomorphism() -> Result<(usize, usize), String> {
 
 pub fn run(ctx: &Ctx) -> Outcome {
     let mut out = Outcome::new("model_checking");
-    let depth = ctx.tier.pick(14usize, 17usize);
+    let depth = ctx.tier.pick(15usize, 18usize);
     let rk = rkiki();
     let a = Analysis::new(&rk.g);
     if !a.all_productive() {
